@@ -47,7 +47,7 @@ def zoo_task(t):
         # densities also in single precision, where a row 300 nats down the tail underflows unless the
         # reduction is stabilised row by row
         dts = [torch.float32] if e.has("umnn") else [torch.float64] + ([torch.float32] if e.kind in ("dist", "flow") and not e.has("discrete") else [])
-        for dt, variant in [(d_, v_) for d_ in dts for v_ in ["prepared"] + (["pristine"] if e.has("needs_init") and d_ == dts[0] else []) + (["prepared/after-sample"] if e.kind == "flow" and e.has("sample") and d_ == dts[0] else [])]:
+        for dt, variant in [(d_, v_) for d_ in dts for v_ in ["prepared"] + (["pristine"] if e.has("needs_init") and d_ == dts[0] else []) + (["prepared/after-sample"] if e.kind == "flow" and e.has("sample") and d_ == dts[0] else []) + (["prepared/one-model-reused-buffers", "prepared/expanded-context"] if d_ == dts[0] and e.ctx(4, seed, d_) is not None and not e.has("umnn") else [])]:
             tol = 2e-4 if dt == torch.float32 else 1e-9
             if dt == torch.float32 and not e.has("umnn"):
                 variant = "prepared/float32"
@@ -91,10 +91,34 @@ def zoo_task(t):
                 # function of that row alone
                 ops.append("sample_and_log_prob")
 
+            # "one-model-reused-buffers": ONE evaluation-mode model serves every call, and the caller feeds rows through
+            # pre-allocated buffers (same storage, new values) - what a serving loop does
+            # "expanded-context": the context is a broadcast view (zero stride along the features, distinct rows)
+            reuse = variant.endswith("one-model-reused-buffers")
+            expanded = variant.endswith("expanded-context") and c is not None and c.dim() == 2
+            shared = {"m": None, "buf": {}}
+
+            def through_buffer(key, t_):
+                b = shared["buf"].get((key, tuple(t_.shape)))
+                if b is None:
+                    b = shared["buf"][(key, tuple(t_.shape))] = torch.empty_like(t_)
+                b.copy_(t_)
+                return b
+
             def run_op(op, idx):
-                m = fresh()
+                if reuse:
+                    if shared["m"] is None:
+                        shared["m"] = fresh()
+                    m = shared["m"]
+                else:
+                    m = fresh()
                 xin = (y if op == "inverse" else x)[idx]
                 cin = c[idx] if c is not None else None
+                if expanded:
+                    cin = c[:, 0][idx][:, None].expand(len(idx), c.shape[1])
+                if reuse:
+                    xin = through_buffer("x" + op, xin)
+                    cin = through_buffer("c", cin) if cin is not None else None
                 if op == "sample_and_log_prob":
                     orig_randn = torch.randn
                     torch.randn = lambda *size, **kw: torch.full(tuple(size[0]) if len(size) == 1 and isinstance(size[0], (tuple, list, torch.Size)) else tuple(size), 0.37, dtype=dt)
